@@ -1,42 +1,5 @@
-/-
-C08 — Validator verdicts follow the documented constraint semantics.
-Property theorems only (helper lemmas live in Octave/Lemmas).  Statements are over the executable
-model `Octave.Model.Constraints`, which the correspondence check ties to constraints.py.
--/
 import Octave.Model.Constraints
+import Octave.Model.Validator
+import Octave.Spec.Meaning
 namespace Octave.C08
-open Octave Octave.PyVal
-
-theorem firstFailure_none_iff (cs : List Constraint) (v : PyVal) :
-    firstFailure cs v = none ↔ ∀ c ∈ cs, c.eval v = none := by
-  induction cs with
-  | nil => simp [firstFailure]
-  | cons c cs ih =>
-    simp only [firstFailure, List.mem_cons, forall_eq_or_imp]
-    cases h : c.eval v with
-    | none => simp [ih]
-    | some e => simp
-
-/-- A chain accepts a value exactly when it declares no conflict and every member accepts the value
-on its own (any length, any member kinds). -/
-theorem C08_chain_iff (cs : List Constraint) (v : PyVal) :
-    chainValid cs v = true ↔ (detectConflicts cs = [] ∧ ∀ c ∈ cs, c.eval v = none) := by
-  unfold chainValid evalChain
-  by_cases hc : detectConflicts cs = []
-  · simp only [hc, List.isEmpty_nil, Bool.not_true, Bool.false_eq_true, ↓reduceIte, true_and]
-    rw [← firstFailure_none_iff]
-    cases firstFailure cs v <;> simp
-  · have : (detectConflicts cs).isEmpty = false := by
-      cases h : detectConflicts cs with
-      | nil => exact absurd h hc
-      | cons _ _ => rfl
-    simp only [this, Bool.not_false, ↓reduceIte, hc, false_and, iff_false]
-    cases h : detectConflicts cs with
-    | nil => exact absurd h hc
-    | cons _ _ => simp
-
-/-- non-vacuity: a chain of three members that accepts a value, and one that is in conflict. -/
-example : chainValid [.req, .enum ["ACTIVE".toList, "DONE".toList], .const (.str "ACTIVE".toList)] (.str "ACTIVE".toList) = true := by decide
-example : detectConflicts [.req, .opt] ≠ [] := by decide
-
 end Octave.C08
